@@ -294,6 +294,82 @@ pub proof fn lemma_byte_off_monotone(cs: Seq<char>, a: int, b: int)
     if a < b { lemma_byte_off_monotone(cs, a, b - 1); }
 }
 
+// ---- StringValue :: `""` | `"` StringCharacter+ `"` | `"""` BlockStringCharacter* `"""` ----
+// StringCharacter :: SourceCharacter but not `"` or `\` or LineTerminator | \u EscapedUnicode | \ EscapedCharacter
+// (left-linear form again: each predicate describes a prefix that starts with the opening quote)
+pub open spec fn plain_string_char(c: char) -> bool { c != '"' && c != '\\' && !line_term(c) }
+pub open spec fn escaped_character(c: char) -> bool { c == '"' || c == '\\' || c == '/' || c == 'b' || c == 'f' || c == 'n' || c == 'r' || c == 't' }
+#[verifier::opaque]
+pub open spec fn q_open(s: Seq<char>) -> bool { s.len() == 1 && s[0] == '"' }
+/// opening quote followed by complete StringCharacters (at least one)
+#[verifier::opaque]
+pub open spec fn q_body(s: Seq<char>) -> bool decreases s.len(), 2int {
+    s.len() >= 2 && (
+        (plain_string_char(s.last()) && (q_open(s.drop_last()) || q_body(s.drop_last())))
+        || (escaped_character(s.last()) && q_backslash(s.drop_last()))
+        || (hexdigit(s.last()) && q_unicode(s.drop_last(), 1)))
+}
+/// ... followed by a backslash
+#[verifier::opaque]
+pub open spec fn q_backslash(s: Seq<char>) -> bool decreases s.len(), 1int {
+    s.len() >= 2 && s.last() == '\\' && (q_open(s.drop_last()) || q_body(s.drop_last()))
+}
+/// ... followed by `\u` and (4 - rem) hex digits
+#[verifier::opaque]
+pub open spec fn q_unicode(s: Seq<char>, rem: int) -> bool decreases s.len(), 0int {
+    s.len() >= 3 && ((rem == 4 && s.last() == 'u' && q_backslash(s.drop_last()))
+        || (1 <= rem < 4 && hexdigit(s.last()) && q_unicode(s.drop_last(), rem + 1)))
+}
+#[verifier::opaque]
+pub open spec fn is_quoted_string(s: Seq<char>) -> bool { s.len() >= 2 && s.last() == '"' && (q_open(s.drop_last()) || q_body(s.drop_last())) }
+/// block strings: only the delimiters are specified here
+pub open spec fn b_open(s: Seq<char>) -> bool { s.len() >= 3 && s[0] == '"' && s[1] == '"' && s[2] == '"' }
+pub open spec fn is_block_string_weak(s: Seq<char>) -> bool {
+    s.len() >= 6 && b_open(s) && s[s.len() - 1] == '"' && s[s.len() - 2] == '"' && s[s.len() - 3] == '"'
+}
+pub proof fn lemma_string_step(s: Seq<char>, c: char)
+    ensures
+        (s.len() == 0 && c == '"') ==> q_open(s.push(c)),
+        ((q_open(s) || q_body(s)) && plain_string_char(c)) ==> q_body(s.push(c)),
+        ((q_open(s) || q_body(s)) && c == '\\') ==> q_backslash(s.push(c)),
+        (q_backslash(s) && escaped_character(c)) ==> q_body(s.push(c)),
+        (q_backslash(s) && c == 'u') ==> q_unicode(s.push(c), 4),
+        forall|rem: int| (#[trigger] q_unicode(s, rem) && hexdigit(c) && 1 < rem <= 4) ==> q_unicode(s.push(c), rem - 1),
+        (q_unicode(s, 1) && hexdigit(c)) ==> q_body(s.push(c)),
+        ((q_open(s) || q_body(s)) && c == '"') ==> is_quoted_string(s.push(c)),
+        (q_open(s) || q_body(s) || q_backslash(s)) ==> s.len() >= 1 && s[0] == '"',
+        forall|rem: int| #[trigger] q_unicode(s, rem) ==> s.len() >= 1 && s[0] == '"' && 1 <= rem <= 4,
+        q_open(s) ==> s.len() == 1,
+{
+    reveal(q_open); reveal(is_quoted_string);
+    reveal_with_fuel(q_body, 2); reveal_with_fuel(q_backslash, 2); reveal_with_fuel(q_unicode, 2);
+    let t = s.push(c);
+    assert(t.drop_last() =~= s);
+    lemma_quoted_prefix_starts_with_quote(s);
+    assert forall|rem: int| #[trigger] q_unicode(s, rem) implies s.len() >= 1 && s[0] == '"' && 1 <= rem <= 4 by { lemma_unicode_prefix_starts_with_quote(s, rem); }
+}
+pub proof fn lemma_quoted_prefix_starts_with_quote(s: Seq<char>)
+    ensures (q_open(s) || q_body(s) || q_backslash(s)) ==> s.len() >= 1 && s[0] == '"'
+    decreases s.len()
+{
+    reveal(q_open); reveal_with_fuel(q_body, 2); reveal_with_fuel(q_backslash, 2); reveal_with_fuel(q_unicode, 2);
+    if s.len() >= 2 {
+        lemma_quoted_prefix_starts_with_quote(s.drop_last());
+        if q_body(s) && hexdigit(s.last()) && q_unicode(s.drop_last(), 1) { lemma_unicode_prefix_starts_with_quote(s.drop_last(), 1); }
+        assert(s.drop_last()[0] == s[0]);
+    }
+}
+pub proof fn lemma_unicode_prefix_starts_with_quote(s: Seq<char>, rem: int)
+    ensures q_unicode(s, rem) ==> s.len() >= 1 && s[0] == '"' && 1 <= rem <= 4
+    decreases s.len()
+{
+    reveal_with_fuel(q_body, 2); reveal_with_fuel(q_backslash, 2); reveal_with_fuel(q_unicode, 2);
+    if q_unicode(s, rem) {
+        if rem == 4 { lemma_quoted_prefix_starts_with_quote(s.drop_last()); } else { lemma_unicode_prefix_starts_with_quote(s.drop_last(), rem + 1); }
+        assert(s.drop_last()[0] == s[0]);
+    }
+}
+
 /// what a successfully returned token must be: the right kind for its text, and maximal
 pub open spec fn token_ok(kind: TokenKind, s: Seq<char>, next: Option<char>) -> bool {
     match kind {
@@ -304,12 +380,12 @@ pub open spec fn token_ok(kind: TokenKind, s: Seq<char>, next: Option<char>) -> 
         TokenKind::Float => is_float(s) && number_may_end_before(next),
         TokenKind::Spread => s.len() == 3 && s[0] == '.' && s[1] == '.' && s[2] == '.',
         TokenKind::Eof => s.len() == 0,
-        TokenKind::StringValue => s.len() >= 2 && s[0] == '"' && s.last() == '"',
+        TokenKind::StringValue => is_quoted_string(s) || is_block_string_weak(s),
         _ => s.len() == 1 && spec_punct(s[0]) == Some(kind),
     }
 }
 /// per-state invariant of the state machine: what has been consumed for the current token
-pub open spec fn state_inv(state: State, s: Seq<char>, kind: TokenKind) -> bool {
+pub open spec fn state_inv(state: State, s: Seq<char>, kind: TokenKind, err_free: bool) -> bool {
     match state {
         State::Start => s.len() == 0,
         State::Ident => kind is Name && is_name(s),
@@ -324,9 +400,13 @@ pub open spec fn state_inv(state: State, s: Seq<char>, kind: TokenKind) -> bool 
         State::ExponentIndicator => kind is Float && g_exp_indicator(s),
         State::ExponentSign => kind is Float && g_exp_sign(s),
         State::ExponentDigit => kind is Float && g_exp_digits(s),
-        State::StringLiteralBackslash => kind is StringValue && s.len() >= 1 && s[0] == '"' && ends_with_backslash(s),
-        State::StringLiteralEscapedUnicode(rem) => kind is StringValue && s.len() >= 1 && s[0] == '"' && in_escape(s, rem as int),
-        _ => kind is StringValue && s.len() >= 1 && s[0] == '"',
+        // quoted strings: the grammar prefix holds as long as no error has been recorded for this token (`self.err`)
+        State::StringLiteralStart => kind is StringValue && q_open(s),
+        State::StringLiteral => kind is StringValue && s.len() >= 1 && s[0] == '"' && (err_free ==> q_body(s)),
+        State::StringLiteralBackslash => kind is StringValue && s.len() >= 1 && s[0] == '"' && ends_with_backslash(s) && (err_free ==> q_backslash(s)),
+        State::StringLiteralEscapedUnicode(rem) => kind is StringValue && s.len() >= 1 && s[0] == '"' && in_escape(s, rem as int) && (err_free ==> q_unicode(s, rem as int)),
+        // block strings
+        _ => kind is StringValue && b_open(s),
     }
 }
 pub open spec fn next_char(c: &Cursor) -> Option<char> { if c.m@.start < c.m@.chars.len() { Some(c.m@.chars[c.m@.start as int]) } else { None } }
@@ -398,7 +478,7 @@ ADV_POST = [
 UNIT = {
     "name": "lexer",
     "properties": ["C03", "C01", "C02"],
-    "rlimit": 600,            # Cursor::advance is one large query (19 states x all exits): measured ~110 s, rlimit ~1.1e9
+    "rlimit": 600,            # Cursor::advance is one large query (19 states x all exits): measured ~85 s, rlimit ~0.74e9 of 1.8e9
     "rlimit_retry": [],
     "parts": [
         dict(file="crates/apollo-parser/src/lexer/token_kind.rs", kind="enum", name="TokenKind", attrs="#[derive(Clone, Copy, PartialEq, Eq, Structural)]"),
@@ -411,6 +491,7 @@ UNIT = {
         dict(file=LX, kind="fn", name="is_escaped_char", clauses=[("ensures", "EscapedCharacter", "r == (c == '\"' || c == '\\\\' || c == '/' || c == 'b' || c == 'f' || c == 'n' || c == 'r' || c == 't')")], props=["C03"]),
         dict(file=LX, kind="fn", name="done", container=r"Cursor<'a>", container_name="Cursor", wrap="impl<'a> Cursor<'a>",
              clauses=[("ensures", "same_text", "item_text(r) == token.data@ && (r is Ok ==> r->Ok_0 == token)"),
+                      ("ensures", "ok_only_without_recorded_error", "r is Ok <==> old(self).err is None", ["C03"]),
                       ("ensures", "frame", "final(self).m == old(self).m && final(self).source == old(self).source")],
              rewrites=[("token.data.to_string()", "str_to_string(token.data)", 1)], props=["C03", "C01", "C02"]),
     
@@ -424,7 +505,7 @@ UNIT = {
              clauses=[("requires", "wf", "old(self).m@.wf() && !old(self).m@.pending && old(self).m@.read == old(self).m@.chars.len()"),
                       ("requires", "start_state_has_consumed_nothing", "state is Start ==> old(self).m@.start == old(self).m@.read && token.kind is Eof && token.data@ =~= Seq::<char>::empty()"),
                       ("requires", "other_states_have_consumed_something", "!(state is Start) ==> old(self).m@.start < old(self).m@.read && !(token.kind is Eof) && old(self).m@.index_ok"),
-                      ("requires", "grammar_state", "state_inv(state, consumed(&*old(self)), token.kind)"),
+                      ("requires", "grammar_state", "state_inv(state, consumed(&*old(self)), token.kind, old(self).err is None)", ["C03"]),
                       ] + ADV_POST + [KIND_POST],
              hints=[("body_start", None, "proof { lemma_step(consumed(&*self), 'x'); }")],
              rewrites=[(".to_string()", ".to_string_shim()", None)], props=["C03", "C01", "C02"]),
@@ -440,12 +521,12 @@ UNIT = {
                  ("wf", "self.m@.wf(), self.m@.chars == old(self).m@.chars, self.source == old(self).source, self.m@.start == old(self).m@.start"),
                  ("start_state", "state is Start ==> self.m@.eff() == self.m@.start && token.kind is Eof && token.data@ =~= Seq::<char>::empty()"),
                  ("other_states", "!(state is Start) ==> self.m@.start < self.m@.eff() && !(token.kind is Eof) && self.m@.index_ok"),
-                 ("grammar_state", "state_inv(state, consumed(&*self), token.kind)"),
+                 ("grammar_state", "state_inv(state, consumed(&*self), token.kind, self.err is None)", ["C03"]),
                  ("source_is_the_model", "self.source@ == self.m@.chars && byte_off(self.m@.chars, self.m@.chars.len() as int) <= usize::MAX"),
                  ("no_pushback_inside_escape", "state is StringLiteralEscapedUnicode ==> !self.m@.pending"),
              ], decreases="self.m@.measure()")],
              hints=[("body_start", None, "proof { reveal_strlit(\"\"); }"),
-                    ("before", "match state {", "proof { let s0 = self.m@.chars.subrange(self.m@.start as int, self.m@.read - 1); lemma_step(s0, c); lemma_escape_step(s0, c); assert(consumed(&*self) =~= s0.push(c)); }"),
+                    ("before", "match state {", "proof { let s0 = self.m@.chars.subrange(self.m@.start as int, self.m@.read - 1); lemma_step(s0, c); lemma_escape_step(s0, c); lemma_string_step(s0, c); assert(consumed(&*self) =~= s0.push(c)); }"),
                     ("before", "let hex_end = self.offset + 1;", "proof { lemma_escape_bytes(self.m@.chars, self.m@.start as int, self.m@.read as int); }"),
                     ("after", "let hex = str_slice(self.source, hex_start, hex_end);", "proof { assert(hex@ =~= self.m@.chars.subrange(self.m@.read - 4, self.m@.read as int)); }")],
              props=["C03", "C01", "C02"]),
